@@ -474,3 +474,19 @@ pub(crate) fn verif_fill_signs(m: usize, n: usize, map: &LDLDataMap) -> Vec<i8> 
     _fill_signs(&mut signs, m, n, map);
     signs
 }
+
+// drive the private value-update primitives from the verification harness
+#[cfg(clarabel_verif)]
+impl<T> DirectLDLKKTSolver<T>
+where
+    T: FloatT,
+{
+    /// `_update_values` on this solver's KKT matrix and LDL backend
+    pub fn verif_update_values(&mut self, index: &[usize], values: &[T]) {
+        _update_values(&mut self.ldlsolver, &mut self.KKT, index, values);
+    }
+    /// `_scale_values` on this solver's KKT matrix and LDL backend
+    pub fn verif_scale_values(&mut self, index: &[usize], scale: T) {
+        _scale_values(&mut self.ldlsolver, &mut self.KKT, index, scale);
+    }
+}
